@@ -32,6 +32,7 @@ class PathFacts:
         self.backend_nodes = []
         env = {}
         truthy = []  # source text of exprs tested truthy on this path
+        falsy = []
         methods = p.methods("Server")
         table_methods = set(p.command_table()[0].values())
 
@@ -67,6 +68,8 @@ class PathFacts:
                 if tpol:
                     truthy.append(src(tt))
                     truthy.append(src(expand(p, tt, fn)))
+                else:
+                    falsy.append(src(tt))
                 if isinstance(tt, ast.Name) and tt.id in env and env[tt.id] is not None and bool(env[tt.id]) != tpol:
                     self.infeasible = True
                 if isinstance(tt, ast.Compare) and len(tt.ops) == 1 and isinstance(tt.ops[0], (ast.Is, ast.IsNot)) and isinstance(tt.left, ast.Name) and tt.left.id in env \
@@ -146,6 +149,11 @@ class PathFacts:
                 self.ret = v.value
             elif isinstance(v, ast.Name) and v.id in env and env[v.id] is not None:
                 self.ret = None if env[v.id] is NONE_CONST else env[v.id]
+            elif isinstance(v, ast.Name) and src(v) in truthy + falsy and len(local_defs(fn, v.id)) == 1:
+                self.ret = src(v) in truthy     # `return flag` after `if flag:` on this path
+            elif isinstance(v, ast.UnaryOp) and isinstance(v.op, ast.Not) and isinstance(v.operand, ast.Name) and src(v.operand) in truthy + falsy \
+                    and len(local_defs(fn, v.operand.id)) == 1:
+                self.ret = src(v.operand) in falsy
             elif self.delegate:
                 self.ret = "delegate:" + self.delegate
             elif v is None:
